@@ -13,7 +13,10 @@ from ..engine import Violation, Ctx
 RULE = ("iff/xor-free sorted formulas (predicates over terms; Boolean, event, past, future, bounded operators; depth<=4); "
         "traces of length 1..10 over dyadic values; sign check at every sample and every monitor that supports the formula; "
         "perturbation check for simple-predicate formulas: 4 perturbed traces per (t) with |delta| in {0.5,0.75,0.9375}*|rho| "
-        "and random signs / all-plus / all-minus corners. distinct by (spec, data, monitor); non-trivial when some value is finite non-zero.")
+        "and random signs / all-plus / all-minus corners. shared-subspec stream: modular texts whose main assertion refers to one named "
+        "sub-specification several times at places that need different delays after pastification (next to / under bounded-future "
+        "operators, through a second name), pastified online (5 in 6) and offline, verdicts from the inlined formula. "
+        "distinct by (spec, data, monitor); non-trivial when some value is finite non-zero.")
 EXPLANATION = ("theorems (EReal instance of the model, real signals and constants): C07_pos_sat, C07_neg_unsat (for formulas whose "
                "terms use + - * unary-minus abs), C07_perturb (simple predicates; all samples moved by < |rho| keep the verdict). "
                "Monitors are tied to rho by C01/C02/C03; this check ties their outputs to `sat` directly.")
